@@ -181,6 +181,132 @@ theorem reference_presentation_independent (r r' : T) (bs : List T) (h : hypOK r
 example : hypOK wRef6 [wBoot6] = true ∧ treeOK wRef6r = true ∧ sameTaxa wRef6 wRef6r = true ∧
     idsInRange wRef6 = true ∧ idsInRange wRef6r = true := by decide
 
+/-- A concrete family for the two theorems above: the one-edge root move (what
+    `Reroot` does one step away) onto an inner child gives a well-formed tree on
+    the same taxa with the same set of splits. -/
+theorem rootMove_presentation (t : T) (i : Nat) (e : EdgeD) (dc : NodeD) (pc : Nat) (kc : Kids)
+    (ht : treeOK t = true) (hi : t.kids[i]? = some (e, .node dc pc kc)) (hkc : kc ≠ []) :
+    treeOK (rootMove t i) = true ∧ sameTaxa t (rootMove t i) = true ∧
+    splitsEquiv t.tipNames t (rootMove t i) = true :=
+  rootMove_ok t i e dc pc kc ht hi hkc
+
+/-- A second family: reordering the children of any nodes (`RotT`, defined by
+    recursion on the tree: children rotated recursively, then permuted). -/
+theorem rotation_presentation (t t' : T) (h : RotT t t') (ht : treeOK t = true) :
+    treeOK t' = true ∧ sameTaxa t t' = true ∧ splitsEquiv t.tipNames t t' = true :=
+  rot_ok t t' h ht
+
+example : RotT wRef6 wRef6rot ∧ treeOK wRef6 = true := ⟨wRef6_rot, by decide⟩
+
+/-- A third family: a rooted tree (root with two children, the second one inner;
+    the other order is a `RotT` away) and its unrooted form `unrootOp` — the two
+    root branches define the same split. -/
+theorem unroot_presentation (d : NodeD) (p : Nat) (e₁ : EdgeD) (a : T) (e₂ : EdgeD) (d₂ : NodeD)
+    (p₂ : Nat) (kc : Kids) (hkc : kc ≠ [])
+    (ht : treeOK (.node d p [(e₁, a), (e₂, .node d₂ p₂ kc)]) = true) :
+    treeOK (unrootOp (.node d p [(e₁, a), (e₂, .node d₂ p₂ kc)])) = true ∧
+    sameTaxa (.node d p [(e₁, a), (e₂, .node d₂ p₂ kc)])
+      (unrootOp (.node d p [(e₁, a), (e₂, .node d₂ p₂ kc)])) = true ∧
+    splitsEquiv (T.node d p [(e₁, a), (e₂, .node d₂ p₂ kc)]).tipNames
+      (.node d p [(e₁, a), (e₂, .node d₂ p₂ kc)])
+      (unrootOp (.node d p [(e₁, a), (e₂, .node d₂ p₂ kc)])) = true :=
+  unroot_ok d p e₁ a e₂ d₂ p₂ kc hkc ht
+
+example : treeOK wRef = true ∧ unrootOp wRef =
+    wN [(wE 0, T.leaf "a"), (wE 2, wN [(wE 3, T.leaf "b"), (wE 4, T.leaf "c")]), (wE 5, T.leaf "d")] :=
+  ⟨by decide, rfl⟩
+
+/-- Replacing a bootstrap tree by another presentation of it changes no support
+    (by `order_independent` the position of the tree in the collection is immaterial). -/
+theorem replace_bootstrap_tree (r b b' : T) (bs : List T) (h : hypOK r (b :: bs) = true)
+    (hid : idsInRange r = true) (m1 : treeOK b' = true) (m2 : sameTaxa b b' = true)
+    (m3 : splitsEquiv b.tipNames b b' = true) :
+    fbp r (b :: bs) = fbp r (b' :: bs) ∧ tbe r (b :: bs) = tbe r (b' :: bs) := by
+  obtain ⟨hr, _, hb⟩ := hypOK_facts h
+  obtain ⟨_, hb2⟩ := hb b (List.mem_cons_self ..)
+  have t1 := sameTaxa_iff.1 hb2
+  have t2 := sameTaxa_iff.1 m2
+  have h' : hypOK r (b' :: bs) = true := by
+    simp only [hypOK, Bool.and_eq_true, Bool.not_eq_true', List.isEmpty_eq_false_iff, List.all_eq_true]
+    refine ⟨⟨hr, by simp⟩, ?_⟩
+    intro x hx
+    rcases List.mem_cons.1 hx with rfl | hx
+    · exact ⟨m1, sameTaxa_iff.2 (fun y => (t1 y).trans (t2 y))⟩
+    · exact hb x (List.mem_cons_of_mem _ hx)
+  have hrep : Repres r.tipNames (b :: bs) (b' :: bs) := by
+    refine ⟨?_, repres_refl _ bs⟩
+    rw [splitsEquiv_congr_all b b' t1]
+    exact m3
+  exact bootstrap_presentation_independent r (b :: bs) (b :: bs) (b' :: bs) h h' hid
+    (List.Perm.refl _) hrep
+
+/-- … in particular re-rooting it by one edge, or reordering children anywhere in it. -/
+theorem reroot_or_rotate_bootstrap_tree (r b : T) (bs : List T) (h : hypOK r (b :: bs) = true)
+    (hid : idsInRange r = true) :
+    (∀ i e dc pc kc, b.kids[i]? = some (e, .node dc pc kc) → kc ≠ [] →
+      fbp r (b :: bs) = fbp r (rootMove b i :: bs) ∧ tbe r (b :: bs) = tbe r (rootMove b i :: bs)) ∧
+    (∀ b', RotT b b' →
+      fbp r (b :: bs) = fbp r (b' :: bs) ∧ tbe r (b :: bs) = tbe r (b' :: bs)) := by
+  obtain ⟨_, _, hb⟩ := hypOK_facts h
+  obtain ⟨hb1, _⟩ := hb b (List.mem_cons_self ..)
+  constructor
+  · intro i e dc pc kc hi hkc
+    obtain ⟨m1, m2, m3⟩ := rootMove_ok b i e dc pc kc hb1 hi hkc
+    exact replace_bootstrap_tree r b _ bs h hid m1 m2 m3
+  · intro b' hrot
+    obtain ⟨m1, m2, m3⟩ := rot_ok b b' hrot hb1
+    exact replace_bootstrap_tree r b b' bs h hid m1 m2 m3
+
+example : hypOK wRef6 [wBoot6, wRef6] = true ∧ idsInRange wRef6 = true ∧
+    (∃ e dc pc kc, wBoot6.kids[0]? = some (e, .node dc pc kc) ∧ kc ≠ []) :=
+  ⟨by decide, by decide, _, _, _, _, rfl, by simp⟩
+
+/-- The same for the reference: presented otherwise (`r'` well-formed, on the same
+    taxa, with the same set of splits — e.g. `rootMove r i` or any `RotT r r'`), every
+    non-trivial branch has a branch of `r'` with the same split and the same two supports. -/
+theorem reroot_or_rotate_reference (r r' : T) (bs : List T) (h : hypOK r bs = true)
+    (m1 : treeOK r' = true) (m2 : sameTaxa r r' = true) (m3 : splitsEquiv r.tipNames r r' = true)
+    (hid : idsInRange r = true) (hid' : idsInRange r' = true) :
+    ∀ s ∈ r.splits, 2 ≤ depth r.tipNames s.below →
+      ∃ s' ∈ r'.splits, sameSplit r.tipNames s.below s'.below = true ∧
+        fbpOf r bs s = fbpOf r' bs s' ∧ tbeOf r bs s = tbeOf r' bs s' := by
+  intro s hs h2
+  obtain ⟨s', hs', hss⟩ := (splitsEquiv_facts m3).1 s hs
+  obtain ⟨_, _, _, _, hall⟩ := reference_presentation_independent r r' bs h m1 m2 hid hid'
+  exact ⟨s', hs', hss, hall s hs s' hs' hss h2⟩
+
+example : treeOK wRef6rot = true ∧ idsInRange wRef6rot = true ∧ hypOK wRef6 [wBoot6] = true := by decide
+
+/-- All of it together: `Pres t t'` — any sequence of root moves onto inner
+    children (a `Reroot`), reorderings of children, unrooting and rooting — yields a
+    well-formed tree on the same taxa with the same set of splits. -/
+theorem presentation_closure (t t' : T) (h : Pres t t') (ht : treeOK t = true) :
+    treeOK t' = true ∧ sameTaxa t t' = true ∧ splitsEquiv t.tipNames t t' = true :=
+  pres_ok h ht
+
+/-- `order/rooting/child-order independence`, bootstrap side: a tree of the
+    collection may be re-presented at will. -/
+theorem represent_bootstrap_tree (r b b' : T) (bs : List T) (h : hypOK r (b :: bs) = true)
+    (hid : idsInRange r = true) (hp : Pres b b') :
+    fbp r (b :: bs) = fbp r (b' :: bs) ∧ tbe r (b :: bs) = tbe r (b' :: bs) := by
+  obtain ⟨_, _, hb⟩ := hypOK_facts h
+  obtain ⟨m1, m2, m3⟩ := pres_ok hp (hb b (List.mem_cons_self ..)).1
+  exact replace_bootstrap_tree r b b' bs h hid m1 m2 m3
+
+/-- … reference side: every non-trivial branch keeps its two supports on the branch
+    of the re-presented reference that defines the same split. -/
+theorem represent_reference (r r' : T) (bs : List T) (h : hypOK r bs = true) (hp : Pres r r')
+    (hid : idsInRange r = true) (hid' : idsInRange r' = true) :
+    ∀ s ∈ r.splits, 2 ≤ depth r.tipNames s.below →
+      ∃ s' ∈ r'.splits, sameSplit r.tipNames s.below s'.below = true ∧
+        fbpOf r bs s = fbpOf r' bs s' ∧ tbeOf r bs s = tbeOf r' bs s' := by
+  obtain ⟨hr, _, _⟩ := hypOK_facts h
+  obtain ⟨m1, m2, m3⟩ := pres_ok hp hr
+  exact reroot_or_rotate_reference r r' bs h m1 m2 m3 hid hid'
+
+example : Pres wRef6 wRef6rot := Pres.rot _ _ wRef6_rot
+example : Pres wRef (unrootOp wRef) := Pres.unroot _ _ _ _ _ _ _ _ (by simp)
+
 /-! ## the oracle the driver evaluates is what the theorems are about -/
 
 /-- The Spec predicates that the driver evaluates on the *implementation's*
